@@ -1194,7 +1194,12 @@ class GenericPlainRegistry(Generic[QuantityT, UnitT], metaclass=RegistryMeta):
                             self._suffixes[suffix],
                         )
                 else:
-                    for real_name in self._units_casei.get(name.lower(), ()):
+                    # the spelling as written first, the others in a fixed order
+                    # (the table holds sets: their order follows the hash seed)
+                    for real_name in sorted(
+                        self._units_casei.get(name.lower(), ()),
+                        key=lambda real_name: (real_name != name, real_name),
+                    ):
                         yield (
                             self._prefixes[prefix].name,
                             self._units[real_name].name,
